@@ -1,7 +1,7 @@
 # /verif/Makefile -- build the Coq development (full .vo build) from the live tree at $(SCODA_REPO)
 SCODA_REPO ?= /repo
 export SCODA_REPO
-.PHONY: setup gen coq clean
+.PHONY: setup gen coq clean audit
 setup: coq
 gen:
 	python3 harness/translate.py coq/Gen
@@ -10,3 +10,7 @@ coq: gen
 clean:
 	cd coq && [ -f Makefile.coq ] && $(MAKE) -f Makefile.coq clean || true
 	rm -rf coq/cases coq/Makefile.coq coq/Makefile.coq.conf
+
+# independent re-check of every compiled file with coqchk; prints the axioms the development relies on
+audit: coq
+	cd coq && timeout 3000 coqchk -silent -o -Q Gen Gen -Q Model Model -Q Proofs Proofs -Q Props Props $$(ls Props/C??.v | sed 's#/#.#; s#\.v$$##') 2>&1 | tail -40
